@@ -70,7 +70,7 @@ def step (st : St) (line : String) : St × String :=
   | ["close"] => ({ st1 with q := st.q.close }, "ok")
   | _ => (st, "bad-op")
 
-def main : IO Unit := do
-  Driver.loop (← IO.getStdin) (← IO.getStdout) ({} : St) step
-
 end Driver.Queue
+
+def main : IO Unit := do
+  Driver.loop (← IO.getStdin) (← IO.getStdout) ({} : Driver.Queue.St) Driver.Queue.step
